@@ -13,6 +13,7 @@ Oracle (needs no model): the recorded call log of the instrumented callables vs 
 separately evaluated arguments; the return value vs the application's value;
 klong[name](*args) vs klong('name(a;b;c)') run side by side; read-back identity of data.
 """
+import functools
 import itertools
 import json
 
@@ -182,6 +183,48 @@ def err_name(e):
     return f"err:{type(e).__name__}"
 
 
+# How the stored callable is built.  Everything except "plain" deliberately SHARES code objects
+# between callables of different signatures / identities within the process, the way real
+# programs do (one decorator, one factory, one class), so that anything klongpy remembers per
+# code object, per class or per name instead of per callable shows up.
+CKINDS = ["plain", "wraps", "closure", "partial", "method", "instance"]
+
+
+def _shared_traced(fn):
+    """ONE ordinary signature-preserving decorator for every decorated callable of the process"""
+    @functools.wraps(fn)
+    def wrapper(*args):
+        return fn(*args)
+    return wrapper
+
+
+_FACTORIES = {}
+
+
+def _factory(sig, shape):
+    """factory(_rec, cid) -> callable; cached, so its products share their code objects"""
+    key = (tuple(sig), shape)
+    if key not in _FACTORIES:
+        names = [p for p in sig if p != "klong"]
+        call = (f"_rec(cid, {'klong' in sig}, {'klong' if 'klong' in sig else 'None'}, "
+                f"({''.join(n + ', ' for n in names)}))")
+        if shape == "fn":
+            src = (f"def _factory(_rec, cid):\n    def _f({', '.join(sig)}):\n        return {call}\n    return _f\n")
+        elif shape == "tagged":
+            src = (f"def _factory(_rec, cid):\n    def _f({', '.join(('_tag',) + tuple(sig))}):\n        return {call}\n"
+                   f"    return _f\n")
+        elif shape == "method":
+            src = (f"def _factory(_rec, cid):\n    class _C:\n        def m({', '.join(('self',) + tuple(sig))}):\n"
+                   f"            return {call}\n    return _C().m\n")
+        else:
+            src = (f"def _factory(_rec, cid):\n    class _C:\n        def __call__({', '.join(('self',) + tuple(sig))}):\n"
+                   f"            return {call}\n    return _C()\n")
+        d = {}
+        exec(src, d)
+        _FACTORIES[key] = d["_factory"]
+    return _FACTORIES[key]
+
+
 class World:
     """instrumented callables of one case / history, on one real interpreter"""
 
@@ -197,7 +240,17 @@ class World:
         self.log.append((cid, bool(wants_klong and k is self.klong), tuple(args)))
         return self.rets[i] if i < len(self.rets) else None
 
-    def make(self, sig, cid):
+    def make(self, sig, cid, ckind="plain"):
+        if ckind == "closure":
+            return _factory(sig, "fn")(self._rec, cid)
+        if ckind == "wraps":
+            return _shared_traced(_factory(sig, "fn")(self._rec, cid))
+        if ckind == "partial":
+            return functools.partial(_factory(sig, "tagged")(self._rec, cid), "tag")
+        if ckind == "method":
+            return _factory(sig, "method")(self._rec, cid)
+        if ckind == "instance":
+            return _factory(sig, "instance")(self._rec, cid)
         names = [p for p in sig if p != "klong"]
         src = (f"def _f({', '.join(sig)}):\n"
                f"    return _rec({cid}, {'klong' in sig}, {'klong' if 'klong' in sig else 'None'}, "
@@ -279,6 +332,12 @@ def gen_pycall(rng, sig, form, where):
                 case["src"] = "lit"
                 case["args"] = [rng.choice(LIT_IDX) for _ in range(ar)]
     case["frame"] = [rng.choice([901, 902, 903, 17, 0]) for _ in range(3)] if where in ("nested", "ref") else []
+    # how the callable is built, and other callables of OTHER signatures built the same way and
+    # stored in the same interpreter before / after it
+    case["ckind"] = rng.choice(CKINDS)
+    case["decoys"] = [[list(rng.choice(SIGS)), rng.choice(["before", "after"]),
+                       case["ckind"] if rng.random() < 0.7 else rng.choice(CKINDS)]
+                      for _ in range(rng.choice([0, 1, 2, 3]))]
     return case
 
 
@@ -298,10 +357,18 @@ def run_pycall(ctx, drv, case):
     ar = sig_arity(sig)
     w = World(_ret_values(case, u))
     klong = w.klong
+    ckind = case.get("ckind", "plain")
+    decoys = case.get("decoys", [])
+    for j, (dsig, pos, dk) in enumerate(decoys):
+        if pos == "before":
+            klong[f"d{j}"] = w.make(tuple(dsig), 2 + j, dk)
     if case.get("imported"):
         w.import_fn(ctx, case["imported"], 1)
     else:
-        klong["f"] = w.make(sig, 1)
+        klong["f"] = w.make(sig, 1, ckind)
+    for j, (dsig, pos, dk) in enumerate(decoys):
+        if pos == "after":
+            klong[f"d{j}"] = w.make(tuple(dsig), 2 + j, dk)
     frame = case["frame"]
     if where == "globaly":
         klong["y"] = 555
@@ -347,6 +414,8 @@ def run_pycall(ctx, drv, case):
         result, raised = None, e
     # ---- oracle (no model)
     key = f"pycall:{form}:{sig_class(sig)}" if not case.get("imported") else "import:positional"
+    if ckind != "plain" or decoys:
+        key += f":{ckind}"
     rets = w.rets
     if form in ("direct", "proj", "at"):
         exp_log = [(1, "klong" in sig, [canon(a) for a in exp_args])]
@@ -381,7 +450,13 @@ def run_pycall(ctx, drv, case):
         drv.ask(f"new mode=positional rets={ret_toks}")
         if where == "globaly":
             drv.ask(f"set name=y kind=data v={it.tok(555)}")
+        for j, (dsig, pos, dk) in enumerate(decoys):
+            if pos == "before":
+                drv.ask(f"set name=d{j} kind=py id={2 + j} sig={sig_wire(dsig)}")
         drv.ask(f"set name=f kind=py id=1 sig={sig_wire(sig)}")
+        for j, (dsig, pos, dk) in enumerate(decoys):
+            if pos == "after":
+                drv.ask(f"set name=d{j} kind=py id={2 + j} sig={sig_wire(dsig)}")
         if form == "proj":
             mask = case["mask"]
             slots = ",".join(str(it.tok(a)) if m else "_" for a, m in zip(exp_args, mask))
@@ -400,11 +475,13 @@ def run_pycall(ctx, drv, case):
             impl = impl_out + " log=" + w.show_log(it, 0)
         if model != impl:
             ctx.mismatch(f"Klong.C09.{form}Py vs _eval_fn/KGLambda.__call__", case, model, impl)
-    ctx.count(("pycall", tuple(sig), form, where, src, tuple(case.get("args", case.get("elems", [])))))
+    ctx.count(("pycall", tuple(sig), form, where, src, tuple(case.get("args", case.get("elems", []))), ckind,
+               json.dumps(decoys)))
     ctx.bump("form:" + form)
     ctx.bump("where:" + where)
     ctx.bump("arity:" + str(ar))
     ctx.bump("sigclass:" + sig_class(sig))
+    ctx.bump("ckind:" + ckind)
     return case
 
 
@@ -451,7 +528,7 @@ def gen_history(rng, nops):
         elif r < 0.34:
             n = rng.choice(NAMES)
             sig = rng.choice(SIGS)
-            ops.append(["setpy", n, list(sig)])
+            ops.append(["setpy", n, list(sig), rng.choice(CKINDS)])
             st[n] = ("py", tuple(sig))
         elif r < 0.40:
             bases = [k for k, v in st.items() if (v[0] == "k" and v[1] >= 2) or (v[0] == "py" and sig_arity(v[1]) >= 2)]
@@ -578,10 +655,12 @@ def run_history(ctx, drv, case):
             if drv:
                 model, impl = drv.ask(f"set name={n} kind=data v={it.tok(u[i][0])}"), "ok"
         elif kind == "setpy":
-            _, n, sig = op
+            n, sig = op[1], op[2]
+            ck = op[3] if len(op) > 3 else "plain"
             cid += 1
             overwrote = n in st
-            klong[n] = w.make(tuple(sig), cid)
+            klong[n] = w.make(tuple(sig), cid, ck)
+            ctx.bump("ckind:" + ck)
             st[n] = ("py", cid, tuple(sig), overwrote)
             if drv:
                 model, impl = drv.ask(f"set name={n} kind=py id={cid} sig={sig_wire(sig)}"), "ok"
